@@ -6,21 +6,51 @@ From Coq Require Import List NArith Bool Lia Permutation.
 Import ListNotations.
 From Oras Require Import Model.GraphMem Model.GraphStore Proofs.GraphMem.
 
+Lemma list_max_In (f : node -> nat) (l : list node) x : In x l -> f x <= list_max (map f l).
+Proof.
+  induction l as [|a r IH]; simpl; [tauto|].
+  intros [<-|H]; [lia | specialize (IH H); lia].
+Qed.
+
+Lemma forall_or_exists (P : node -> bool) (n : node) (l : list node) :
+  (forall x, In x l -> P x = true -> x = n) \/ (exists x, In x l /\ P x = true /\ x <> n).
+Proof.
+  induction l as [|a r IH]; [left; intros x []|].
+  destruct IH as [IH|(x & Hx & Hp & Hn)].
+  - destruct (P a) eqn:Pa.
+    + destruct (N.eq_dec a n) as [->|Hne].
+      * left. intros x [<-|Hx] Hp; auto.
+      * right. exists a. simpl. auto.
+    + left. intros x [<-|Hx] Hp; [congruence | auto].
+  - right. exists x. simpl. auto.
+Qed.
+
+Lemma pre_inv content sok r p :
+  pre content sok r p -> p = r \/ exists q, pre content sok r q /\ sok q = true /\ In p (content q).
+Proof. intros H. inversion H; subst; [left; reflexivity | right; eauto]. Qed.
+
 Section Store.
 Variable content : node -> list node.
 Variable isman : node -> bool.
+Variable rank : node -> nat.
 (* only the five manifest media types have successors *)
 Hypothesis content_isman : forall p, content p <> [] -> isman p = true.
+(* content addressing: a node's successors were hashed before it *)
+Hypothesis rank_dec : forall p c, In c (content p) -> rank c < rank p.
+
+Definition parented (s : ostore) (p : node) : Prop :=
+  exists q, In q (o_blobs s) /\ isman q = true /\ In p (content q).
 
 Record J (s : ostore) : Prop := mkJ {
   j_inv : Inv content (o_graph s);
-  (* every stored manifest has a by-digest entry in the resolver *)
-  j_root : forall p, isman p = true -> In p (o_blobs s) -> In p (o_bydigest s);
+  (* every stored manifest has a by-digest entry in the resolver or a stored parent *)
+  j_local : forall p, isman p = true -> In p (o_blobs s) -> In p (o_bydigest s) \/ parented s p;
   (* graph manifests = stored manifests *)
   j_graph_stored : forall p, In p (g_nodes (o_graph s)) -> isman p = true -> In p (o_blobs s);
   j_stored_graph : forall p, In p (o_blobs s) -> isman p = true -> In p (g_nodes (o_graph s));
-  (* every stored manifest is named by the index.json last written *)
-  j_disk : forall p, isman p = true -> In p (o_blobs s) -> In p (o_dbydigest s) \/ In p (o_dtagged s)
+  j_tagged : forall p, In p (o_tagged s) -> In p (o_bydigest s);
+  (* the index.json last written names what the resolver names *)
+  j_sync : forall p, In p (o_bydigest s) <-> In p (o_dbydigest s) \/ In p (o_dtagged s)
 }.
 
 Lemma J_empty : J empty_store.
@@ -36,6 +66,13 @@ Proof.
   unfold o_sok. rewrite orb_true_iff, negb_true_iff, smem_In. tauto.
 Qed.
 
+Lemma parented_mono s s' p :
+  (forall q, In q (o_blobs s) -> In q (o_blobs s')) -> parented s p -> parented s' p.
+Proof. intros H (q & Hq & Hm & Hc). exists q. auto. Qed.
+
+Lemma in_content_isman p q : In p (content q) -> isman q = true.
+Proof. intro H. apply content_isman. intro E. rewrite E in H. destruct H. Qed.
+
 (* the graph after a load whose storage is the store's blobs *)
 Lemma load_J_nodes s fuel roots g' :
   load content (o_sok isman s) fuel roots = (g', true) ->
@@ -50,70 +87,207 @@ Proof.
     apply o_sok_true. auto.
 Qed.
 
-Lemma ostep_J fuel s o :
-  J s -> J (fst (ostep true true content isman fuel s o)).
+(* every stored manifest is reachable from the roots when each is a root or has a stored
+   parent: walk up the parents, the rank grows and is bounded *)
+Lemma rooted_reach s roots :
+  (forall p, isman p = true -> In p (o_blobs s) -> In p roots \/ parented s p) ->
+  forall p, isman p = true -> In p (o_blobs s) ->
+    exists r, In r roots /\ areach content (o_sok isman s) r p.
 Proof.
-  intros HJ. destruct HJ as [H1 H2 H3 H4 H5]. destruct o; cbn [ostep].
+  intros Hloc.
+  set (B := S (list_max (map rank (o_blobs s)))).
+  assert (forall x, In x (o_blobs s) -> rank x < B) as HB.
+  { intros x Hx. unfold B. pose proof (list_max_In rank (o_blobs s) x Hx). lia. }
+  assert (forall k p, B - rank p <= k -> isman p = true -> In p (o_blobs s) ->
+            exists r, In r roots /\ areach content (o_sok isman s) r p) as Hk.
+  { induction k as [|k IH]; intros p Hle Hm Hp.
+    - pose proof (HB p Hp). lia.
+    - destruct (Hloc p Hm Hp) as [Hr|(q & Hq & Hmq & Hc)].
+      + exists p. split; auto. split; [apply pre_refl | apply o_sok_true; auto].
+      + pose proof (rank_dec q p Hc). pose proof (HB q Hq).
+        destruct (IH q) as (r & Hr & Hpre & Hs); auto; [lia|].
+        exists r. split; auto. split; [|apply o_sok_true; auto].
+        eapply pre_step; eauto. }
+  intros p Hm Hp. apply (Hk (B - rank p)); auto.
+Qed.
+
+Lemma save_sync (bd tg : list node) :
+  (forall p, In p tg -> In p bd) -> forall p, In p bd <-> In p bd \/ In p tg.
+Proof. intros H p. split; [auto | intros [H1|H1]; auto]. Qed.
+
+(* a load from roots that cover the stored manifests re-establishes graph = storage *)
+Lemma load_covers s fuel roots g' :
+  load content (o_sok isman s) fuel roots = (g', true) ->
+  (forall p, isman p = true -> In p (o_blobs s) -> In p roots \/ parented s p) ->
+  Inv content g' /\
+  (forall p, In p (g_nodes g') -> isman p = true -> In p (o_blobs s)) /\
+  (forall p, In p (o_blobs s) -> isman p = true -> In p (g_nodes g')).
+Proof.
+  intros E Hloc.
+  destruct (load_J_nodes s fuel roots g' E) as [Ha _].
+  split; [|split; auto].
+  - pose proof (load_Inv content (o_sok isman s) fuel roots) as HI. rewrite E in HI. exact HI.
+  - intros p Hp Hm. destruct (rooted_reach s roots Hloc p Hm Hp) as (r & Hr & Hreach).
+    apply (load_exact content (o_sok isman s) fuel roots g' E). exists r. auto.
+Qed.
+
+Lemma ostep_J fuel s o :
+  J s -> J (fst (ostep true true true content isman fuel s o)).
+Proof.
+  intros HJ. destruct HJ as [H1 H2 H3 H4 H5 H6]. destruct o; cbn [ostep].
   - (* Push *)
     destruct (smem n (o_blobs s)) eqn:M; [constructor; auto|].
     destruct (isman n) eqn:Mn; constructor; simpl.
     + apply index_Inv, H1.
-    + intros p Hm [<-|Hb]; apply In_sadd; auto.
+    + intros p Hm [<-|Hb]; [left; apply In_sadd; auto|].
+      destruct (H2 p Hm Hb) as [H|H]; [left; apply In_sadd; auto | right].
+      apply (parented_mono s); auto. simpl. auto.
     + intros p Hp Hm. apply In_sadd in Hp. destruct Hp as [->|Hp]; [left; reflexivity | right; apply H3; auto].
     + intros p [<-|Hb] Hm; apply In_sadd; [left; reflexivity | right; apply H4; auto].
-    + intros p Hm [<-|Hb]; left; apply In_sadd; auto.
+    + intros p Hp. apply In_sadd. auto.
+    + apply save_sync. intros p Hp. apply In_sadd. auto.
     + apply index_Inv, H1.
-    + intros p Hm [<-|Hb]; [congruence | auto].
+    + intros p Hm [<-|Hb]; [congruence|].
+      destruct (H2 p Hm Hb) as [H|H]; [auto | right].
+      apply (parented_mono s); auto. simpl. auto.
     + intros p Hp Hm. apply In_sadd in Hp. destruct Hp as [->|Hp]; [left; reflexivity | right; apply H3; auto].
     + intros p [<-|Hb] Hm; apply In_sadd; [left; reflexivity | right; apply H4; auto].
-    + intros p Hm [<-|Hb]; [congruence | auto].
+    + exact H5.
+    + exact H6.
   - (* Tag *)
     destruct (smem n (o_blobs s)) eqn:M; [|constructor; auto].
-    constructor; simpl; auto.
-    + intros p Hm Hb. apply In_sadd. auto.
-    + intros p Hm Hb. left. apply In_sadd. auto.
+    constructor; simpl.
+    + exact H1.
+    + intros p Hm Hb. destruct (H2 p Hm Hb) as [H|H]; [left; apply In_sadd; auto | right].
+      apply (parented_mono s); auto.
+    + exact H3.
+    + exact H4.
+    + intros p Hp. apply In_sadd in Hp. apply In_sadd. destruct Hp; auto.
+    + apply save_sync. intros p Hp. apply In_sadd in Hp. apply In_sadd. destruct Hp; auto.
   - (* Untag *)
-    constructor; simpl; auto.
+    constructor; simpl.
+    + exact H1.
+    + intros p Hm Hb. destruct (H2 p Hm Hb) as [H|H]; [auto | right].
+      apply (parented_mono s); auto.
+    + exact H3.
+    + exact H4.
+    + intros p Hp. apply In_sdel in Hp. apply H5, Hp.
+    + apply save_sync. intros p Hp. apply In_sdel in Hp. apply H5, Hp.
   - (* Delete *)
-    assert (Inv content (fst (remove (o_graph s) n))) as R1 by (apply remove_Inv, H1).
-    assert (forall p, isman p = true -> In p (sdel n (o_blobs s)) -> In p (sdel n (o_bydigest s))) as R2.
-    { intros p Hm Hb. apply In_sdel in Hb. destruct Hb as [Hne Hb]. apply In_sdel. auto. }
-    assert (forall p, In p (g_nodes (fst (remove (o_graph s) n))) -> isman p = true -> In p (sdel n (o_blobs s))) as R3.
-    { intros p Hp Hm. apply remove_ord_nodes in Hp. destruct Hp as [Hne Hp]. apply In_sdel. auto. }
-    assert (forall p, In p (sdel n (o_blobs s)) -> isman p = true -> In p (g_nodes (fst (remove (o_graph s) n)))) as R4.
-    { intros p Hb Hm. apply In_sdel in Hb. destruct Hb as [Hne Hb]. apply remove_ord_nodes. auto. }
-    destruct (smem n (o_bydigest s) || smem n (o_tagged s)); constructor; simpl; auto.
-    intros p Hm Hb. apply In_sdel in Hb. destruct Hb as [Hne Hb]. auto.
+    destruct (remove (o_graph s) n) as [g' dang] eqn:ER.
+    assert (g' = fst (remove (o_graph s) n)) as Eg by (rewrite ER; reflexivity).
+    assert (dang = snd (remove (o_graph s) n)) as Ed by (rewrite ER; reflexivity).
+    assert (Inv content g') as R1 by (rewrite Eg; apply remove_Inv, H1).
+    assert (forall x, In x (g_nodes g') <-> x <> n /\ In x (g_nodes (o_graph s))) as Rn.
+    { intro x. rewrite Eg. apply remove_ord_nodes. }
+    assert (forall d, In d dang <->
+              (In n (g_nodes (o_graph s)) /\ In d (content n) /\ In d (g_nodes (o_graph s)) /\
+               forall p, In p (g_nodes (o_graph s)) -> In d (content p) -> p = n)) as Rd.
+    { intro d. rewrite Ed. unfold remove. apply remove_ord_danglings; auto. tauto. }
+    remember (filter (fun d => isman d && negb (smem d (o_bydigest s))) dang) as rr eqn:Err.
+    set (s' := mkO (sdel n (o_blobs s)) (rr ++ sdel n (o_bydigest s)) (sdel n (o_tagged s)) g'
+                   (o_dbydigest s) (o_dtagged s)).
+    assert (forall p, isman p = true -> In p (o_blobs s') -> In p (o_bydigest s') \/ parented s' p) as R2.
+    { intros p Hm Hb. simpl in Hb. apply In_sdel in Hb. destruct Hb as [Hne Hb]. simpl.
+      destruct (H2 p Hm Hb) as [H|(q & Hq & Hmq & Hc)].
+      - left. apply in_app_iff. right. apply In_sdel. auto.
+      - destruct (N.eq_dec q n) as [->|Hqn].
+        + (* the deleted node was a parent: another parent, or p is dangling and re-rooted *)
+          destruct (forall_or_exists (fun x => if in_dec N.eq_dec p (content x) then true else false)
+                                     n (g_nodes (o_graph s))) as [Hall|(x & Hx & Hpx & Hxn)].
+          * assert (In p dang) as Hd.
+            { apply Rd. split; [apply H4; auto|]. split; auto. split; [apply H4; auto|].
+              intros p' Hp' Hc'. apply Hall; auto.
+              destruct (in_dec N.eq_dec p (content p')); auto; try contradiction. }
+            left. apply in_app_iff.
+            destruct (smem p (o_bydigest s)) eqn:Mb.
+            -- right. apply In_sdel. split; auto. apply smem_In, Mb.
+            -- left. rewrite Err. apply filter_In. split; auto. rewrite Hm, Mb. reflexivity.
+          * right. exists x.
+            destruct (in_dec N.eq_dec p (content x)) as [Hc'|]; [|discriminate].
+            assert (isman x = true) as Hmx by (apply (in_content_isman p x Hc')).
+            split; [apply In_sdel; split; auto|]. auto.
+        + right. exists q. split; [apply In_sdel; auto|]. auto. }
+    assert (forall p, In p (g_nodes g') -> isman p = true -> In p (sdel n (o_blobs s))) as R3.
+    { intros p Hp Hm. apply Rn in Hp. destruct Hp as [Hne Hp]. apply In_sdel. auto. }
+    assert (forall p, In p (sdel n (o_blobs s)) -> isman p = true -> In p (g_nodes g')) as R4.
+    { intros p Hb Hm. apply In_sdel in Hb. destruct Hb as [Hne Hb]. apply Rn. auto. }
+    assert (forall p, In p (sdel n (o_tagged s)) -> In p (rr ++ sdel n (o_bydigest s))) as R5.
+    { intros p Hp. apply In_sdel in Hp. destruct Hp as [Hne Hp]. apply in_app_iff. right.
+      apply In_sdel. auto. }
+    destruct (smem n (o_bydigest s) || smem n (o_tagged s) ||
+              negb (match rr with [] => true | _ => false end)) eqn:Cond.
+    + constructor; simpl; [exact R1 | exact R2 | exact R3 | exact R4 | exact R5 | apply save_sync; exact R5].
+    + constructor; simpl; [exact R1 | exact R2 | exact R3 | exact R4 | exact R5 |].
+      apply orb_false_iff in Cond. destruct Cond as [Cond Crr].
+      apply orb_false_iff in Cond. destruct Cond as [Cb Ct].
+      apply smem_false in Cb. destruct rr; [|discriminate].
+      intro p. simpl. rewrite In_sdel, <- H6. split; [tauto|].
+      intro Hp. split; auto. intros ->. auto.
   - (* GC *)
     destruct (load content (o_sok isman s) fuel (o_tagged s ++ kept)) as [g' ok] eqn:E.
     destruct ok; [|constructor; auto].
     destruct (load_J_nodes s fuel _ g' E) as [Ha Hb].
-    assert (forall p, isman p = true -> In p (filter (exists_node g') (o_blobs s)) ->
-                      In p ((o_tagged s ++ kept) ++ filter (exists_node g') (o_bydigest s))) as R2.
-    { intros p Hm Hp. apply filter_In in Hp. destruct Hp as [Hp Hx].
-      apply in_app_iff. right. apply filter_In. auto. }
-    constructor; simpl; auto.
+    destruct (load_exact content (o_sok isman s) fuel _ g' E) as [Hn _].
+    constructor; simpl.
     + pose proof (load_Inv content (o_sok isman s) fuel (o_tagged s ++ kept)) as HI.
       rewrite E in HI. exact HI.
+    + intros p Hm Hp. apply filter_In in Hp. destruct Hp as [Hp Hx].
+      apply exists_node_In in Hx. apply Hn in Hx. destruct Hx as (r & Hr & Hpre & Hs).
+      destruct (pre_inv _ _ _ _ Hpre) as [->|(q & Hq & Hsq & Hc)].
+      * left. apply in_app_iff. auto.
+      * right. exists q.
+        assert (isman q = true) as Hmq by (apply (in_content_isman p q Hc)).
+        assert (In q (g_nodes g')) as Hqg by (apply Hn; exists r; split; auto; split; auto).
+        split; [|auto]. apply filter_In. split; [apply Ha; auto | apply exists_node_In; auto].
     + intros p Hp Hm. apply filter_In. split; [apply Ha; auto | apply exists_node_In; auto].
     + intros p Hp Hm. apply filter_In in Hp. destruct Hp as [_ Hx]. apply exists_node_In, Hx.
+    + intros p Hp. apply in_app_iff. left. apply in_app_iff. auto.
+    + apply save_sync. intros p Hp. apply in_app_iff. left. apply in_app_iff. auto.
   - (* Reopen *)
     destruct (load content (o_sok isman s) fuel (o_dtagged s ++ o_dbydigest s)) as [g' ok] eqn:E.
     destruct ok; [|constructor; auto].
-    destruct (load_J_nodes s fuel _ g' E) as [Ha Hb].
-    assert (forall p, isman p = true -> In p (o_blobs s) -> In p (o_dtagged s ++ o_dbydigest s)) as R2.
-    { intros p Hm Hp. apply in_app_iff. destruct (H5 p Hm Hp); auto. }
-    constructor; simpl; auto.
-    pose proof (load_Inv content (o_sok isman s) fuel (o_dtagged s ++ o_dbydigest s)) as HI.
-    rewrite E in HI. exact HI.
+    assert (forall p, isman p = true -> In p (o_blobs s) ->
+                      In p (o_dtagged s ++ o_dbydigest s) \/ parented s p) as Hloc.
+    { intros p Hm Hp. destruct (H2 p Hm Hp) as [H|H]; auto.
+      left. apply in_app_iff. apply H6 in H. tauto. }
+    destruct (load_covers s fuel _ g' E Hloc) as (R1 & R3 & R4).
+    constructor; simpl.
+    + exact R1.
+    + intros p Hm Hp. destruct (Hloc p Hm Hp) as [H|H]; [left; exact H | right; exact H].
+    + exact R3.
+    + exact R4.
+    + intros p Hp. apply in_app_iff. auto.
+    + intros p. rewrite in_app_iff. tauto.
+  - (* Foreign *)
+    match goal with |- context [forallb ?f ?l] => destruct (forallb f l) eqn:G end; [|constructor; auto].
+    destruct (load content (o_sok isman s) fuel (o_tagged s ++ roots)) as [g' ok] eqn:E.
+    destruct ok; [|constructor; auto].
+    assert (forall p, isman p = true -> In p (o_blobs s) ->
+                      In p (o_tagged s ++ roots) \/ parented s p) as Hloc.
+    { intros p Hm Hp. rewrite forallb_forall in G. specialize (G p Hp).
+      rewrite Hm in G. simpl in G.
+      apply orb_true_iff in G. destruct G as [G|G].
+      - apply orb_true_iff in G. destruct G as [G|G]; apply smem_In in G; left; apply in_app_iff; auto.
+      - right. apply existsb_exists in G. destruct G as (q & Hq & Hc).
+        apply andb_true_iff in Hc. destruct Hc as [Hmq Hc]. apply smem_In in Hc.
+        exists q. auto. }
+    destruct (load_covers s fuel _ g' E Hloc) as (R1 & R3 & R4).
+    constructor; simpl.
+    + exact R1.
+    + intros p Hm Hp. destruct (Hloc p Hm Hp) as [H|H]; [left; exact H | right; exact H].
+    + exact R3.
+    + exact R4.
+    + intros p Hp. apply in_app_iff. auto.
+    + intros p. rewrite in_app_iff. tauto.
 Qed.
 
-Lemma orun_J fuel ops : forall s, J s -> J (fst (orun true true content isman fuel s ops)).
+Lemma orun_J fuel ops : forall s, J s -> J (fst (orun true true true content isman fuel s ops)).
 Proof.
   induction ops as [|o r IH]; intros s HJ; simpl; auto.
   pose proof (ostep_J fuel s o HJ) as H.
-  destruct (ostep true true content isman fuel s o) as [s1 ok1]. simpl in H.
-  specialize (IH s1 H). destruct (orun true true content isman fuel s1 r) as [s2 ok2]. exact IH.
+  destruct (ostep true true true content isman fuel s o) as [s1 ok1]. simpl in H.
+  specialize (IH s1 H). destruct (orun true true true content isman fuel s1 r) as [s2 ok2]. exact IH.
 Qed.
 
 (* Predecessors = the stored manifests, indexes and artifact manifests referencing n *)
@@ -121,23 +295,23 @@ Lemma J_exact s : J s -> forall n,
   NoDup (predecessors (o_graph s) n) /\
   forall p, In p (predecessors (o_graph s) n) <-> In p (o_blobs s) /\ In n (content p).
 Proof.
-  intros [H1 H2 H3 H4 H5] n.
+  intros [H1 H2 H3 H4 H5 H6] n.
   destruct (predecessors_exact content (o_graph s) H1 n) as [Hd Hm]. split; auto.
   intro p. rewrite Hm. split; intros [Hp Hn]; split; auto.
-  - apply H3; auto. apply content_isman. intro E. rewrite E in Hn. destruct Hn.
-  - apply H4; auto. apply content_isman. intro E. rewrite E in Hn. destruct Hn.
+  - apply H3; auto. apply (in_content_isman n p Hn).
+  - apply H4; auto. apply (in_content_isman n p Hn).
 Qed.
 
 Lemma store_history_exact fuel ops n :
-  let s := fst (orun true true content isman fuel empty_store ops) in
+  let s := fst (orun true true true content isman fuel empty_store ops) in
   NoDup (predecessors (o_graph s) n) /\
   forall p, In p (predecessors (o_graph s) n) <-> In p (o_blobs s) /\ In n (content p).
 Proof. intro s. apply J_exact. apply orun_J, J_empty. Qed.
 
 (* closing and opening the layout again changes no answer *)
 Lemma store_reopen_same fuel ops s' :
-  let s := fst (orun true true content isman fuel empty_store ops) in
-  ostep true true content isman fuel s PReopen = (s', true) ->
+  let s := fst (orun true true true content isman fuel empty_store ops) in
+  ostep true true true content isman fuel s PReopen = (s', true) ->
   o_blobs s' = o_blobs s /\
   forall n, Permutation (predecessors (o_graph s') n) (predecessors (o_graph s) n).
 Proof.
@@ -175,7 +349,7 @@ Qed.
 Lemma store_history_exact_prefix_refuted :
   exists content isman fuel ops n p,
     (forall q, content q <> [] -> isman q = true) /\
-    let r := orun false true content isman fuel empty_store ops in
+    let r := orun false true false content isman fuel empty_store ops in
     snd r = true /\ In p (o_blobs (fst r)) /\ In n (content p) /\
     ~ In p (predecessors (o_graph (fst r)) n).
 Proof.
@@ -189,7 +363,7 @@ Qed.
 Lemma store_gc_save_early_refuted :
   exists content isman fuel ops n p,
     (forall q, content q <> [] -> isman q = true) /\
-    let r := orun true false content isman fuel empty_store ops in
+    let r := orun true false false content isman fuel empty_store ops in
     snd r = true /\ In p (o_blobs (fst r)) /\ In n (content p) /\
     ~ In p (predecessors (o_graph (fst r)) n).
 Proof.
@@ -201,17 +375,17 @@ Qed.
 (* ... and without the reopen in between the early save is masked (the live resolver is
    complete and Delete rewrites the file): why the chain GC -> reopen -> Delete -> reopen matters *)
 Lemma store_gc_save_early_masked :
-  let r := orun true false (ctab pf_ct) pf_isman 50 empty_store pf_ops in
+  let r := orun true false false (ctab pf_ct) pf_isman 50 empty_store pf_ops in
   snd r = true /\ predecessors (o_graph (fst r)) 0%N = [2%N].
 Proof. vm_compute. repeat split. Qed.
 
 (* the same histories on the code as it is *)
 Lemma store_history_fixed_example :
-  let r := orun true true (ctab pf_ct) pf_isman 50 empty_store pf_ops in
+  let r := orun true true true (ctab pf_ct) pf_isman 50 empty_store pf_ops in
   snd r = true /\ o_blobs (fst r) = [2; 0]%N /\ predecessors (o_graph (fst r)) 0%N = [2%N].
 Proof. vm_compute. repeat split. Qed.
 Lemma store_history_fixed_example2 :
-  let r := orun true true (ctab pf_ct) pf_isman 50 empty_store pf_ops2 in
+  let r := orun true true true (ctab pf_ct) pf_isman 50 empty_store pf_ops2 in
   snd r = true /\ o_blobs (fst r) = [2; 0]%N /\ predecessors (o_graph (fst r)) 0%N = [2%N].
 Proof. vm_compute. repeat split. Qed.
 
@@ -219,11 +393,135 @@ Proof. vm_compute. repeat split. Qed.
 Lemma gc_save_after_restore_true : gc_save_after_restore = true.
 Proof. vm_compute. reflexivity. Qed.
 
+Lemma delete_reroots_true : delete_reroots = true.
+Proof. vm_compute. reflexivity. Qed.
+
 Lemma store_history_exact_src :
-  forall (content : node -> list node) (isman : node -> bool),
+  forall (content : node -> list node) (isman : node -> bool) (rank : node -> nat),
     (forall p, content p <> [] -> isman p = true) ->
+    (forall p c, In c (content p) -> rank c < rank p) ->
     forall fuel ops n,
-      let s := fst (orun true gc_save_after_restore content isman fuel empty_store ops) in
+      let s := fst (orun true gc_save_after_restore delete_reroots content isman fuel empty_store ops) in
       NoDup (predecessors (o_graph s) n) /\
       forall p, In p (predecessors (o_graph s) n) <-> In p (o_blobs s) /\ In n (content p).
-Proof. rewrite gc_save_after_restore_true. exact store_history_exact. Qed.
+Proof. rewrite gc_save_after_restore_true, delete_reroots_true. exact store_history_exact. Qed.
+
+(* ---- a layout whose index.json lists only the top-level manifests (other tools; oras-go's
+   own GC before 34cefcb), Delete without re-rooting the dangling manifest ([reroot = false]):
+   push 0, 2 = manifest{0}, 3 = index{2}; tag 3; the index is rewritten to list 3 only and the
+   layout reopened; delete 3; reopen: 2 is stored, references 0, Predecessors(0) is empty. *)
+Definition pf_ops3 : list oop :=
+  [PPush 0; PPush 2; PPush 3; PTag 3; PForeign []; PDelete 3; PReopen]%N.
+
+Lemma store_foreign_noreroot_refuted :
+  exists content isman fuel ops n p,
+    (forall q, content q <> [] -> isman q = true) /\
+    let r := orun true true false content isman fuel empty_store ops in
+    snd r = true /\ In p (o_blobs (fst r)) /\ In n (content p) /\
+    ~ In p (predecessors (o_graph (fst r)) n).
+Proof.
+  exists (ctab pf_ct), pf_isman, 50%nat, pf_ops3, 0%N, 2%N.
+  split; [exact pf_content_isman|].
+  vm_compute. repeat split; auto.
+Qed.
+
+Lemma store_foreign_fixed_example :
+  let r := orun true true true (ctab pf_ct) pf_isman 50 empty_store pf_ops3 in
+  snd r = true /\ o_blobs (fst r) = [2; 0]%N /\ predecessors (o_graph (fst r)) 0%N = [2%N].
+Proof. vm_compute. repeat split. Qed.
+
+(* the rank hypothesis is satisfiable for the example universe *)
+Lemma pf_rank_dec : forall p c, In c (ctab pf_ct p) -> (N.to_nat c < N.to_nat p)%nat.
+Proof.
+  intros p c. unfold ctab, getd, pf_ct. simpl.
+  destruct (N.eqb_spec p 2) as [->|]; [intros [<-|[]]; vm_compute; lia|].
+  destruct (N.eqb_spec p 3) as [->|]; [intros [<-|[]]; vm_compute; lia|]. intros [].
+Qed.
+
+(* ---- file store ---- *)
+Lemma frun_inv content ops : forall s,
+  (Inv content (f_graph s) /\ forall x, In x (g_nodes (f_graph s)) <-> In x (f_blobs s)) ->
+  let s' := fold_left (fstep true content) ops s in
+  Inv content (f_graph s') /\ forall x, In x (g_nodes (f_graph s')) <-> In x (f_blobs s').
+Proof.
+  induction ops as [|o r IH]; intros s H; simpl; auto.
+  apply IH. destruct H as [HI Hn]. destruct o as [n st rs]. simpl.
+  destruct (smem n (f_blobs s) || negb st); [auto|]. simpl. split; [apply index_Inv, HI|].
+  intro x. rewrite In_sadd, Hn. intuition auto.
+Qed.
+
+Lemma file_history_exact content ops n :
+  let s := frun true content ops in
+  NoDup (predecessors (f_graph s) n) /\
+  forall p, In p (predecessors (f_graph s) n) <-> In p (f_blobs s) /\ In n (content p).
+Proof.
+  intro s.
+  destruct (frun_inv content ops empty_fstore) as [HI Hn].
+  { split; [apply Inv_empty | simpl; tauto]. }
+  fold (frun true content ops) in HI, Hn. fold s in HI, Hn.
+  destruct (predecessors_exact content (f_graph s) HI n) as [Hd Hm]. split; auto.
+  intro p. rewrite Hm, Hn. tauto.
+Qed.
+
+Lemma file_index_first_true : file_index_first = true.
+Proof. vm_compute. reflexivity. Qed.
+
+Lemma file_history_exact_src content ops n :
+  let s := frun file_index_first content ops in
+  NoDup (predecessors (f_graph s) n) /\
+  forall p, In p (predecessors (f_graph s) n) <-> In p (f_blobs s) /\ In n (content p).
+Proof. rewrite file_index_first_true. apply file_history_exact. Qed.
+
+(* restore before index: a manifest whose duplicate cannot be restored is stored, not indexed *)
+Lemma file_restore_first_refuted :
+  exists content ops n p,
+    let s := frun false content ops in
+    In p (f_blobs s) /\ In n (content p) /\ ~ In p (predecessors (f_graph s) n).
+Proof.
+  exists (ctab pf_ct), [FPush 0%N true true; FPush 2%N true false], 0%N, 2%N.
+  vm_compute. repeat split; auto.
+Qed.
+
+(* ---- an operation that fails half-way is outside the theorems: witness ---- *)
+Lemma store_delete_error_refuted :
+  exists content isman ops n p,
+    (forall q, content q <> [] -> isman q = true) /\
+    let s := delete_unlink_fails content isman
+               (fst (orun true true true content isman 50 empty_store ops)) p in
+    In p (o_blobs s) /\ In n (content p) /\ ~ In p (predecessors (o_graph s) n).
+Proof.
+  exists (ctab pf_ct), pf_isman, [PPush 0%N; PPush 2%N], 0%N, 2%N.
+  split; [exact pf_content_isman|].
+  vm_compute. repeat split; auto.
+Qed.
+
+(* ---- fuel: every GC / reopen step completes (per step; audit F8) ---- *)
+Lemma load_fuel_ok content sok U fuel roots :
+  (forall u, In u U -> forall c, In c (content u) -> In c U) ->
+  1 + pot content U [] < fuel -> (forall r, In r roots -> In r U) ->
+  snd (load content sok fuel roots) = true.
+Proof. intros Hc Hf Hr. unfold load. apply (load_from_fuel content sok U fuel Hc Hf roots empty_graph Hr). Qed.
+
+Lemma store_step_terminates content isman U fuel fixed save_late reroot s o :
+  (forall u, In u U -> forall c, In c (content u) -> In c U) ->
+  1 + pot content U [] < fuel ->
+  (forall x, In x (o_tagged s) \/ In x (o_dtagged s) \/ In x (o_dbydigest s) -> In x U) ->
+  match o with PGC kept => forall x, In x kept -> In x U | PForeign _ => False | _ => True end ->
+  snd (ostep fixed save_late reroot content isman fuel s o) = true.
+Proof.
+  intros Hc Hf He Ho. destruct o; cbn [ostep].
+  - destruct (smem n (o_blobs s)); [reflexivity|]. destruct (isman n); reflexivity.
+  - destruct (smem n (o_blobs s)); reflexivity.
+  - reflexivity.
+  - destruct (remove (o_graph s) n) as [g' dang].
+    match goal with |- snd (if ?c then _ else _) = true => destruct c; reflexivity end.
+  - assert (snd (load content (o_sok isman s) fuel (o_tagged s ++ kept)) = true) as H.
+    { apply (load_fuel_ok content _ U); auto. intros r Hr. apply in_app_iff in Hr. destruct Hr; auto. }
+    destruct (load content (o_sok isman s) fuel (o_tagged s ++ kept)) as [g' ok]. simpl in H. subst ok.
+    destruct save_late; reflexivity.
+  - assert (snd (load content (o_sok isman s) fuel (o_dtagged s ++ o_dbydigest s)) = true) as H.
+    { apply (load_fuel_ok content _ U); auto. intros r Hr. apply in_app_iff in Hr. destruct Hr; auto. }
+    destruct (load content (o_sok isman s) fuel (o_dtagged s ++ o_dbydigest s)) as [g' ok]. simpl in H. subst ok.
+    reflexivity.
+  - destruct Ho.
+Qed.
